@@ -12,7 +12,7 @@ Nothing is applied to /repo.
 import glob, hashlib, json, os, re, subprocess, sys, time
 
 VERIF = os.path.dirname(os.path.dirname(os.path.abspath(__file__)))
-WT = "/tmp/seed_recheck"
+WT = "/tmp/seed_recheck_%d" % os.getpid()
 
 
 def sh(cmd, cwd=None, env=None, timeout=7200):
